@@ -77,10 +77,75 @@ def invoke(lib, cb, sig, x, route):
     return fid, r == fid + xf / 4.0
 
 
+def rwx_regions():
+    """writable+executable (or, under PaX emutramp, writable) mappings of this process, merged"""
+    regs = []
+    with open("/proc/self/maps") as f:
+        for line in f:
+            parts = line.split()
+            lo, hi = (int(x, 16) for x in parts[0].split("-"))
+            regs.append((lo, hi, parts[1]))
+    want = [(lo, hi) for lo, hi, perms in regs if "w" in perms and "x" in perms]
+    if not want:
+        want = [(lo, hi) for lo, hi, perms in regs if "w" in perms]
+    want.sort()
+    merged = []
+    for lo, hi in want:
+        if merged and merged[-1][1] == lo:
+            merged[-1][1] = hi
+        else:
+            merged.append([lo, hi])
+    return merged
+
+
+def run_bulk(payload, lib, geom):
+    """keep payload['bulk'] callbacks alive at once; addresses distinct, inside rwx mappings, a sample called"""
+    import bisect
+    import random
+    n = payload["bulk"]
+    rng = random.Random(payload.get("seed", 0))
+    cbs, addrs = [], []
+    for i in range(n):
+        cb = ffi.callback("int(int)", make_fn(i + 1, 0, None))
+        cbs.append(cb)
+        addrs.append(int(ffi.cast("uintptr_t", cb)))
+        if (i + 1) % 500 == 0:
+            sys.stderr.write("BULK %d\n" % (i + 1))
+            sys.stderr.flush()
+    bs = geom["blocksize"]
+    regs = rwx_regions()
+    los = [r[0] for r in regs]
+    outside = []
+    for i, a in enumerate(addrs):
+        k = bisect.bisect_right(los, a) - 1
+        if k < 0 or a + bs > regs[k][1]:
+            outside.append([i, a])
+            if len(outside) >= 5:
+                break
+    breaks = [i + 1 for i in range(n - 1) if addrs[i] - addrs[i + 1] != bs]
+    # sample: around every block boundary, the first/last, and random ones
+    idx = set([0, n - 1])
+    for b in breaks:
+        idx.update(x for x in (b - 2, b - 1, b, b + 1) if 0 <= x < n)
+    idx.update(rng.randrange(n) for _ in range(payload.get("sample", 300)))
+    wrong = []
+    for i in sorted(idx):
+        sys.stderr.write("CALL %d\n" % i)
+        for route in ("cdata", "c"):
+            fid, exact = invoke(lib, cbs[i], 0, i % 1000, route)
+            if fid != i + 1 or not exact:
+                wrong.append([i, route, fid])
+    sys.stderr.flush()
+    return dict(bulk=n, distinct=len(set(addrs)), outside=outside, breaks=breaks, wrong=wrong[:5],
+                called=len(idx), geom=geom)
+
+
 def main(payload):
     gc.disable()
     lib = helper()
     geom = dict(blocksize=int(lib.c29_sizeof_closure()), pagesize=int(lib.c29_pagesize()))
+    if "bulk" in payload:
+        return run_bulk(payload, lib, geom)
     live = {}          # h -> (cb, sig, cyclic)
     outs = []
     for op in payload["ops"]:
